@@ -2,6 +2,7 @@ package checks
 
 import (
 	"fmt"
+	"os"
 	"sort"
 	"strconv"
 	"strings"
@@ -481,7 +482,21 @@ func bashEquiv(r *Run, c *gosym.Ctx, sh Shape, o eqOpts) (out eqOutcome) {
 		}
 		if len(viol) > 0 {
 			out.Syntactic = false
-			if finish("data is interpreted by the shell or an observable differs", B.Or(viol...)) {
+			diag := "data is interpreted by the shell or an observable differs"
+			if os.Getenv("VERIF_DEBUG") != "" {
+				for _, h := range shl.Hazards {
+					if !h.Cond.IsFalse() {
+						diag += " | hazard: " + h.What
+					}
+				}
+				for _, x := range obs {
+					if !x.t.IsTrue() {
+						diag += " | obligation: " + x.what
+					}
+				}
+				diag += " | script: " + script.String()
+			}
+			if finish(diag, B.Or(viol...)) {
 				return
 			}
 		}
